@@ -119,6 +119,12 @@ func exprSpace(name, desc string, exprs []gen.Expr, docs func() []*doc.Tree, cfg
 
 // runExprOnDocs compiles once and evaluates on every (document, context).
 func runExprOnDocs(cfg *evalCfg, w *explore.Worker, s string, ast, base gen.Expr, docs []*doc.Tree) {
+	runExprOnCtxs(cfg, w, s, ast, base, docs, nil)
+}
+
+// runExprOnCtxs is runExprOnDocs restricted to the given context nodes
+// (nil = every node of each document).
+func runExprOnCtxs(cfg *evalCfg, w *explore.Worker, s string, ast, base gen.Expr, docs []*doc.Tree, only []int) {
 	prop, ops, mode, withNS, ns, navNS := cfg.Prop, cfg.Ops, cfg.Mode, cfg.WithNS, cfg.NS, cfg.NavNS
 	skel := gen.Skeleton(ast)
 	if cfg.SigOf != nil {
@@ -144,6 +150,9 @@ func runExprOnDocs(cfg *evalCfg, w *explore.Worker, s string, ast, base gen.Expr
 			cfg.Env(env)
 		}
 		for ctx := range t.Nodes {
+			if only != nil && !containsInt(only, ctx) {
+				continue
+			}
 			want := ref.Eval(env, ctx, ast)
 			if want.T == ref.TUndef {
 				w.Count("skipped_undefined", 1)
@@ -179,14 +188,14 @@ func runExprOnDocs(cfg *evalCfg, w *explore.Worker, s string, ast, base gen.Expr
 				if nontriv {
 					w.NonTrivialCase(s)
 				}
-				if eng.Matches(o, want, mode == "set") {
+				if eng.MatchesMode(o, want, mode) {
 					w.EngOutcome("agree")
 					continue
 				}
 				// re-run on a fresh compile before attributing
 				class := ""
 				if o.Kind == "nodes" && want.T == ref.TNodeSet {
-					class = eng.DiffClass(ternaryInts(mode == "set", eng.AsSet(o.Nodes), o.Nodes), want.NS)
+					class = eng.DiffClass(modeNodes(o.Nodes, mode), want.NS)
 				} else if o.IsPanic() || o.Kind == "hang" || o.Kind == "badtype" || o.Kind == "nil" {
 					class = o.Kind
 				} else {
@@ -194,7 +203,7 @@ func runExprOnDocs(cfg *evalCfg, w *explore.Worker, s string, ast, base gen.Expr
 				}
 				if e2, err2, _ := eng.Compile(s, withNS, ns); err2 == nil && e2 != nil {
 					o2 := runOp(e2, t, ctx, navNS, op)
-					if eng.Matches(o2, want, mode == "set") {
+					if eng.MatchesMode(o2, want, mode) {
 						class = "history:" + class
 					}
 				}
@@ -205,6 +214,25 @@ func runExprOnDocs(cfg *evalCfg, w *explore.Worker, s string, ast, base gen.Expr
 			}
 		}
 	}
+}
+
+func containsInt(a []int, x int) bool {
+	for _, v := range a {
+		if v == x {
+			return true
+		}
+	}
+	return false
+}
+
+func modeNodes(ns []int, mode string) []int {
+	switch mode {
+	case "set":
+		return eng.AsSet(ns)
+	case "bag":
+		return eng.SortedBag(ns)
+	}
+	return ns
 }
 
 func wantString(v ref.Value, mode string) string {
